@@ -27,6 +27,7 @@ pub fn variant_module(name: &str, v: &Variant) -> String {
     writeln!(s, "pub mod {} {{", name).unwrap();
     writeln!(s, "   #![allow(warnings)]").unwrap();
     writeln!(s, "   use prog::vfn;").unwrap();
+    writeln!(s, "   pub const KONST0: i32 = 0; pub const KONST1: i32 = 1; pub const KONST2: i32 = 2;").unwrap();
     match v.kind {
         MacroKind::Ascent | MacroKind::AscentPar => {
             let generic = v.generic;
